@@ -22,18 +22,28 @@ def _install_lex(c):
     import re
     cre = re.compile(r"([MmZzLlHhVvCcSsQqTtAa])")
 
+    fre = re.compile(r"[-+]?(?:[0-9]+\.?[0-9]*|\.[0-9]+)(?:[eE][-+]?[0-9]+)?")
+
     def tok(ip, f, args, kwargs):
         s = args[1]
         parts = s.parts if isinstance(s, I.TokStr) else [s]
         out = []
-        for p in parts:
+        for i, p in enumerate(parts):
             if isinstance(p, str):
+                # literal template text is tokenised the way the real tokenizer does it; a digit,
+                # sign, dot or exponent letter of the template must not touch a formatted number
+                if i > 0 and not isinstance(parts[i - 1], str) and p[:1] not in ' ,\t\n' and p[:1] not in 'MmZzLlHhVvCcSsQqTtAa':
+                    raise I.Unsupported("template text %r directly after a formatted number" % p[:3])
+                if i + 1 < len(parts) and not isinstance(parts[i + 1], str) and p[-1:] not in ' ,\t\n' and p[-1:] not in 'MmZzLlHhVvCcSsQqTtAa':
+                    raise I.Unsupported("template text %r directly before a formatted number" % p[-3:])
                 for x in cre.split(p):
                     if x and x in 'MmZzLlHhVvCcSsQqTtAa':
                         out.append(x)
-                    elif re.search(r'[0-9]', x):
-                        raise I.Unsupported("digits in a literal part of the d-string")
+                    else:
+                        out.extend(fre.findall(x))
             else:
+                if i > 0 and not isinstance(parts[i - 1], str):
+                    raise I.Unsupported("two formatted numbers without template text between them")
                 out.append(p)
         return I.IterV(out)
     c.ip.summaries['path.Path._tokenize_path'] = tok
